@@ -368,3 +368,45 @@ def path_avoiding(f, avoid_ids, target):
             continue
         st.extend(cfg.blocks[b].rsucc)
     return False
+
+
+def r_reduce(P, chk):
+    """R-REDUCE: every reduce action uses the value of every right-hand-side symbol of its rule (a line or block that a
+    rule consumes but does not attach to its result disappears from the tree without any diagnostic)."""
+    from .prog import edpe_blocks, block_nodes, key, const_value, strip
+    rid = "R-REDUCE"
+    chk.rule(rid, "for every grammar rule with k >= 2 right-hand-side symbols, the reduce action reads all k stack slots "
+                  "yymsp[-(k-1)] .. yymsp[0] (EDPE of yy_reduce over yyruleno; the final store into the result slot does not count)")
+    T = Tables(P)
+    yr = P.func("yy_reduce", "parser.c")
+    if yr is None:
+        raise AnalysisBroken("parser.c: yy_reduce is gone")
+    n = 0
+    for r, (lhs, nrhs) in enumerate(T.rules):
+        if nrhs < 2:
+            continue
+        n += 1
+        blocks = edpe_blocks(yr, "yyruleno", r)
+        read = set()
+        for x in block_nodes(yr, blocks):
+            if x["k"] != "ArraySubscriptExpr" or key(x["c"][0]) != "yymsp":
+                continue
+            idx = const_value(x["c"][1])
+            # climb .minor.yy0 ; a plain store `yymsp[i].minor.yy0 = v` is not a read
+            top = x
+            p = yr.parent(top)
+            while p is not None and p["k"] in ("MemberExpr", "ImplicitCastExpr", "ParenExpr") and p["c"] and p["c"][0] is top:
+                if p["k"] == "ImplicitCastExpr" and p.get("ck") == "LValueToRValue":
+                    break
+                top, p = p, yr.parent(p)
+            if p is not None and p["k"] == "BinaryOperator" and p["op"] == "=" and p["c"][0] is top:
+                continue
+            read.add(idx)
+        missing = [i for i in range(-(nrhs - 1), 1) if i not in read]
+        chk.obligation(rid, "rule %d (%d symbols): all stack slots read" % (r, nrhs), ok=not missing, sample=(n <= 3))
+        if missing:
+            chk.violation(rid, "reduce:rule%d" % r, "parser.c:yy_reduce", "the action of grammar rule %d never reads stack slot(s) %s of its %d "
+                          "right-hand-side symbols: the line / block matched there is dropped from the tree silently" % (
+                              r, ", ".join("yymsp[%d]" % i for i in missing), nrhs))
+    chk.floor(rid, n, 40, "grammar rules with two or more right-hand-side symbols")
+    chk.analysed[rid] = {"rules_checked": n, "rules": len(T.rules)}
